@@ -5,12 +5,14 @@ import Qfx.Drv.ValMon
 import Qfx.Drv.Sched
 import Qfx.Drv.Store
 import Qfx.Drv.StoreMon
+import Qfx.Drv.Crash
 namespace Qfx.Drv
 
 def families : List (String × Family) :=
   [ ("val", valFamily), ("val-mon", valMonFamily)
   , ("sched", schedFamily)
   , ("store", storeFamily), ("store-mon", storeMonFamily)
+  , ("crash", crashFamily)
   ]
 
 end Qfx.Drv
